@@ -344,7 +344,9 @@ def run_op(case, ctx) -> None:
         while cfg["mode"] == "pyscalar":
             cfg = op.gen(rng)
     if case["fn"] == "scaled_dot_product_attention":
-        cfg["dropout_p"] = 0.0
+        # with dropout the mask is pinned (the harness re-seeds the generator before the library call and before the reference
+        # call), so the forward / backward scalars can still be fitted; finite differences are only run without dropout
+        cfg["dropout_p"] = rng.choice([0.0, 0.0, 0.1, 0.3, 0.5])
     seed = case["seed"]
     ctx.count("evaluations")
     N = run_fit(op, U, cfg, None if op.constraint_kind else "n/a", torch.float64, seed, seed + 1)
@@ -386,7 +388,7 @@ def run_op(case, ctx) -> None:
                     ctx.violation(f"C05:{case['fn']}:weight-or-bias-scale-changed-by-constraint:{k}",
                                   f"{k}: {N.b[k]!r} (None) vs {Cn.b[k]!r} ({name})", cfg=cfg)
             ctx.nontrivial(f"op|{case['fn']}|{name}|{sorted((k, str(v)) for k, v in cfg.items() if not isinstance(v, float))}")
-    if case["gradcheck"]:
+    if case["gradcheck"] and not cfg.get("dropout_p"):
         gen = torch.Generator().manual_seed(seed)
         basein = op.build(cfg, gen, torch.float64)
         for name in names:
